@@ -64,6 +64,9 @@ Definition dev_rules_ok (ds : list device) (rules : list devrule) : bool :=
                     existsb (fun r => String.eqb (dr_type r) (d_type d) && opt_eqb Z.eqb (dr_major r) (Some (d_major d)) &&
                                       opt_eqb Z.eqb (dr_minor r) (Some (d_minor d))) rules) ds.
 
+(* the keys a list of the adjustment names: the key of a set, the raw key of a removal (frame theorem) *)
+Definition named {E} (key : E -> string) (es : list E) : list string := map (fun e => rawkey (key e)) es.
+
 (* ---------- "every internal iteration order" ---------- *)
 (* a' is a with the iteration order of its two maps (annotations, unified) and the list order of its
    mounts, environment and device entries (sets and removals alike) permuted in any way *)
